@@ -1,9 +1,15 @@
 """Registry of obligations: which harness / Verus unit / scan serves which property, on which
 extraction variant, which real functions it puts under contract, and how a counterexample is
 replayed natively."""
+import json
 import os
 import re
 import subprocess
+import sys
+
+sys.path.insert(0, os.path.join(os.path.dirname(os.path.dirname(os.path.abspath(__file__))), "lib"))
+import extract
+import gen_macros
 
 VERIF = os.path.dirname(os.path.dirname(os.path.abspath(__file__)))
 
@@ -159,3 +165,154 @@ claim("C04",
 claim("C07",
       "Proof: for every prior value of the call-site counter and every expectation N, after the real will_execute the counter is 0 and the registered verifier is the one handed in.",
       "Trusted: the counter reached through the verifier is the static the fake increments (shown per fake! arm under C06/C08).")
+
+# ------------------------------------------------------------------------------------------------
+# C06 / C08: one harness per arm of fake! found in /repo at check time
+MAC = "interface/macros.rs"
+
+
+def _macro_files(repo, skip=()):
+    arms, arms_text, lines, harness_text = gen_macros.generate(repo, skip)
+    return {
+        "verif_arms": dict(parent=INJ, dest="interface/injector/verif_arms.rs", modline="mod verif_arms;", text=arms_text, gate=False),
+        "verif_macros": dict(parent=INJ, dest="interface/injector/verif_macros.rs", modline="mod verif_macros;", text=harness_text),
+    }
+
+
+GENERATORS["macros"] = _macro_files
+
+
+def macros_precheck(crate, env):
+    """C08.arm<k>.compiles — rustc is the checker: the extracted crate with one instantiation per arm must
+    type-check. A failing arm is identified from the diagnostic spans, reported, and left out of the
+    crate that goes to Kani so that the other arms are still decided."""
+    repo = extract.REPO
+    arms, arms_text, lines, _h = gen_macros.generate(repo)
+    res = dict(obligations={}, failures=[], undecided=[], skip=set())
+    unparsed = [a for a in arms if not a["parsed"]]
+    for a in unparsed:
+        res["undecided"].append("fake! arm %d (macros.rs line %d) has a matcher this generator does not understand: %s" % (a["idx"], a["line"], a["matcher"][:120]))
+    env = dict(env)
+    env.pop("RUSTFLAGS", None)
+    env["CARGO_TARGET_DIR"] = os.path.join(os.path.dirname(crate), "td", "precheck")
+    p = subprocess.run(["cargo", "check", "--offline", "--message-format=json", "--lib"], cwd=crate, env=env, stdout=subprocess.PIPE, stderr=subprocess.PIPE, text=True)
+    bad = {}
+    other = []
+    for line in p.stdout.split("\n"):
+        if not line.startswith("{"):
+            continue
+        try:
+            m = json.loads(line)
+        except Exception:  # noqa: BLE001
+            continue
+        msg = m.get("message")
+        if m.get("reason") != "compiler-message" or not msg or msg.get("level") != "error":
+            continue
+        hit = None
+
+        def walk(sp):
+            nonlocal hit
+            if sp is None:
+                return
+            if sp.get("file_name", "").endswith("verif_arms.rs"):
+                for k, (a, b) in lines.items():
+                    if a <= sp["line_start"] <= b:
+                        hit = k
+            walk((sp.get("expansion") or {}).get("span"))
+
+        for sp in msg.get("spans", []):
+            walk(sp)
+        if hit is None:
+            other.append(msg.get("message", "")[:200])
+        else:
+            bad.setdefault(hit, []).append(msg.get("message", "")[:200])
+    if p.returncode != 0 and not bad and not other:
+        res["undecided"].append("cargo check of the extracted crate failed: " + p.stderr[-400:])
+    if other and not bad:
+        res["undecided"].append("the extracted crate does not compile for a reason not attributable to a fake! arm: " + "; ".join(other[:3]))
+    for a in arms:
+        if not a["parsed"]:
+            continue
+        oid = "C08.arm%d.compiles" % a["idx"]
+        if a["idx"] in bad:
+            res["obligations"][oid] = "FAILURE"
+            res["failures"].append(dict(obligation=oid, desc="fake! arm %d (macros.rs line %d: %s) does not compile for a well-typed use: %s" % (a["idx"], a["line"], a["matcher"][:100], "; ".join(bad[a["idx"]][:2])), loc="src/interface/macros.rs:%d" % a["line"], kind="obligation"))
+            res["skip"].add(a["idx"])
+        elif not other and (p.returncode == 0 or bad):
+            res["obligations"][oid] = "SUCCESS"
+    res["n_arms"] = len(arms)
+    return res
+
+
+_ARMS = []
+try:
+    _ARMS = gen_macros.enumerate_arms(extract.REPO)
+except Exception as _e:  # noqa: BLE001  (lost anchor is reported by the driver when it extracts)
+    _ARMS = []
+_MACRO_COMMON = dict(module_dest="interface/injector/verif_macros.rs", generator="macros", precheck="macros", fns=[(MAC, "__assert_future_output")], extra_modules=[])
+for _a in _ARMS:
+    if not _a["parsed"]:
+        continue
+    _k = _a["idx"]
+    H("arm_%d" % _k, props=["C08", "C06"] if _a["times"] else ["C08"], arm=_k, expects_panic=(_a["when"] or _a["times"]), group="arms", covers=["COVER:end"], **_MACRO_COMMON)
+    if _a["times"]:
+        H("rmw_%d" % _k, props=["C06"], arm=_k, group="arms", **_MACRO_COMMON)
+PRECHECKS = {"macros": macros_precheck}
+
+H("c06_verdict", module="verif_verifier.rs", props=["C06", "C05"], fns=[(VER, "drop")], expects_panic=True, covers=["COVER:end", "COVER:quiet-while-panicking", "COVER:satisfied"])
+
+
+def scan_verdict_message(repo):
+    """not verifier-decided: that the verdict message names both numbers. Syntactic scan of the format string."""
+    t = open(os.path.join(repo, "src", VER)).read()
+    body = extract.fn_text(t, "drop")
+    m = re.search(r'panic!\(\s*"([^"]*)"', body)
+    if not m:
+        return None, "no panic! with a literal message found in CallCountVerifier::drop"
+    msg = m.group(1)
+    ok = "{expected}" in msg and "{call_times}" in msg
+    return ok, "verdict message %r %s both the expected and the actual count" % (msg, "names" if ok else "does NOT name")
+
+
+STATIC["c06_message_names_both_numbers"] = dict(props=["C06"], fn=scan_verdict_message)
+
+# ------------------------------------------------------------------------------------------------
+# Verus units
+import verus_alloc  # noqa: E402
+
+
+def _lemma_builder(fname):
+    def b(repo):
+        with open(os.path.join(VERIF, "contracts", "lemmas", fname)) as f:
+            return f.read(), [dict(rule="lemma-file", file=fname)]
+    return b
+
+
+def _alloc_builder(variant):
+    return lambda repo: verus_alloc.build(repo, variant)
+
+
+_ALLOC_FN = [(COM, "allocate_jit_memory_unix")]
+VERUS["alloc_linux_x86_64"] = dict(props=["C11", "C12"], builder=_alloc_builder("linux_x86_64"), fns=_ALLOC_FN, expect_verified=11)
+VERUS["alloc_linux_aarch64"] = dict(props=["C11"], builder=_alloc_builder("linux_aarch64"), fns=_ALLOC_FN, expect_verified=11)
+VERUS["alloc_macos_aarch64"] = dict(props=["C11", "C15"], builder=_alloc_builder("macos_aarch64"), fns=_ALLOC_FN, expect_verified=11)
+VERUS["lemmas_history"] = dict(props=["C02", "C03", "C12"], builder=_lemma_builder("history.rs"), expect_verified=10, lemma=True)
+VERUS["lemmas_counting"] = dict(props=["C06"], builder=_lemma_builder("counting.rs"), expect_verified=4, lemma=True)
+VERUS["lemmas_reach"] = dict(props=["C11", "C15"], builder=_lemma_builder("reach.rs"), expect_verified=3, lemma=True)
+
+# ------------------------------------------------------------------------------------------------
+# AArch64 (T1-extracted files compiled for the host)
+A64G = "injector_core/arm64_codegenerator.rs"
+A64P = "injector_core/patch_arm64.rs"
+UTL = "injector_core/utils.rs"
+TB_A64 = "A64 decoder/interpreter for MOVZ, MOVK, BR, RET, B, ADRP, ADD (imm), NOP (verif_rt::oracle, restated from the Arm ARM C6.2)"
+_GEN_FNS = [(UTL, "u64_to_bits"), (UTL, "u8_to_bits"), (UTL, "bool_array_to_u32"), (A64G, "emit_movz"), (A64G, "emit_movk"), (A64G, "emit_movz_from_address"), (A64G, "emit_movk_from_address"), (A64G, "emit_br"), (A64G, "emit_ret"), (A64G, "emit_ret_x30")]
+H("c15_bits", module="verif_a64gen.rs", props=["C15"], fns=_GEN_FNS[:3])
+H("c15_movz_movk", module="verif_a64gen.rs", props=["C15"], fns=_GEN_FNS)
+H("c15_from_address", module="verif_a64gen.rs", props=["C15"], fns=_GEN_FNS)
+H("c15_br_ret", module="verif_a64gen.rs", props=["C15"], fns=_GEN_FNS)
+H("c15_long_jump", module="verif_a64gen.rs", variant="macos", props=["C15", "C11"], fns=[(A64G, "maybe_emit_long_jump")], covers=["COVER:end", "COVER:short", "COVER:long"])
+H("c15_abs", module="verif_arm64.rs", props=["C15", "C13", "C17"], fns=[(A64P, "generate_will_execute_jit_code_abs"), (A64P, "append_instruction"), (COM, "inject_asm_code")] + _GEN_FNS, timeout=3000)
+H("c15_bool", module="verif_arm64.rs", props=["C15", "C10", "C13"], fns=[(A64P, "generate_will_return_boolean_jit_code"), (A64P, "write_instruction")] + _GEN_FNS)
+H("c11_a64_range", module="verif_arm64.rs", props=["C11", "C15", "C12", "C02"], fns=[(A64P, "apply_branch_patch"), (COM, "patch_function", 0)], covers=["COVER:end", "COVER:lowest", "COVER:highest"])
+H("c15_a64_out_of_range_refused", module="verif_arm64.rs", props=["C15", "C11", "C05"], fns=[(A64P, "apply_branch_patch")], expects_panic=True, covers=[], covers_unreachable=["COVER:wrapped-branch-written"])
